@@ -202,6 +202,9 @@ def check(repo: Repo, run: Run) -> None:
     arrivals: Set[str] = {exc for (_, exc) in eng.caught if _.startswith("evaluation.Evaluator.")} | {e for _, e, _w in info["escapes"]}
     # InvalidTimezone only escapes through a host-configured TZ_ALIASES entry that names no zone (configuration, not CEL input)
     arrivals -= {"CELEvalError", "CELSyntaxError", "CELUnsupportedError", "RuntimeError", "StopIteration", "<reraise>", "NotFound", "InvalidTimezone"}
+    # Host*Error are the engine's stand-ins for "any subclass a host function may raise"; generated code cannot
+    # reach a host function (C14.F3), and the exact-class table of result() is already recorded through ParserError
+    arrivals = {a for a in arrivals if not a.startswith("Host")}
     # method calls on dynamic receivers in templates
     for mname, ts in tmpls.items():
         for t in ts:
